@@ -499,3 +499,30 @@ func (s StateSpec) Resolve(name string, cell Cell) []float64 {
 	_, st := Run1(name, cell, s.Warm, nil)
 	return st
 }
+
+// Stormy rewrites a rainfall series so that it certainly contains a storm (> 20 mm) and, when long
+// enough, a dry spell of at least 5 steps; used where a check's non-triviality rule asks for both.
+func Stormy(t *rapid.T, rain []float64) {
+	n := len(rain)
+	if n == 0 {
+		return
+	}
+	at := rapid.IntRange(0, n-1).Draw(t, "stormAt")
+	rain[at] = rapid.Float64Range(25, 300).Draw(t, "stormMM")
+	if n >= 12 {
+		d := rapid.IntRange(0, n-6).Draw(t, "dryAt")
+		for k := d; k < d+6; k++ {
+			if k != at {
+				rain[k] = 0
+			}
+		}
+		if at >= d && at < d+6 { // keep both: move the storm just outside the spell
+			rain[at] = 0
+			if d > 0 {
+				rain[d-1] = 60
+			} else {
+				rain[d+6] = 60
+			}
+		}
+	}
+}
